@@ -23,7 +23,7 @@ D13_CASE = ("vsock out 1 576 1048576 32768 1048576 1 5 10000000000 1 1 100 1 7 1
             "W1056,0 P M2,1,102,1048576,5,0,0,- W1584,0 P T8000000000 P M2,1,103,528,6,0,0,- P DR DW P")
 
 PREDICATES = ["c17_synack_ok", "c17_fin_after_data_noerr", "c17_fin_number_step_ok", "c17_fin_seq_ok",
-              "c17_peer_fin_ok", "c17_reset_ok", "c17_reset_trace_ok"]
+              "c17_peer_fin_ok2", "c17_fin_covers_data_ok", "c17_reset_ok", "c17_reset_trace_ok"]
 
 
 def gen_teardown(rng, n):
